@@ -170,12 +170,18 @@ def run(ctx):
         return not probs, '; '.join(probs)
     ob('R05.3').run(fc, '_calc_lengths on 3 segments (positive lengths)', th_calc, judge_calc,
                     opts={'call_hooks': {'path.Line.length': len_hook}})
-    # zero total: division must be guarded
-    guard = any(isinstance(n, ast.If) and '_length' in norm(n.test) and isinstance(n.test, ast.Compare) and
-                isinstance(n.test.ops[0], (ast.Eq, ast.NotEq)) and norm(n.test.comparators[0]) in ('0', '0.0')
-                for n in ast.walk(fc.node))
-    ctx.record('R05.3', fc.qualname, 'division by the total is guarded against a zero total', guard,
-               detail='' if guard else 'no `self._length == 0` guard around the normalisation', where=where(fc))
+    # zero total (all segments degenerate): the normalisation must not divide by it
+    def th_zero(it):
+        p, segs = mk_path(it, lengths=False)
+        p.attrs['_length'] = None
+        it.call_method(p, '_calc_lengths', error=Rat.sym('err'), min_depth=Rat.sym('md'))
+        return p
+
+    def judge_zero(p):
+        ok = to_rat(p.attrs['_length']).is_zero() and len(p.attrs['_lengths']) == 3
+        return ok, '' if ok else 'total %r / fractions %r for three zero-length segments' % (p.attrs['_length'], p.attrs['_lengths'])
+    ob('R05.3').run(fc, 'division by the total is guarded against a zero total', th_zero, judge_zero,
+                    opts={'call_hooks': {'path.Line.length': lambda it, a, k: Rat.const(0)}})
 
     # ---------------------------------------------------------------- R05.4
     fcs = mdl.func('path.Path.continuous_subpaths')
